@@ -33,6 +33,9 @@ EQS = [
      dict(), False),
     ('pysph.sph.wc.edac', 'MomentumEquationPressureGradient', dict(pb=2.0),
      True),   # same class name as the TVF one: gets its own evaluator
+    # number-density form of the pressure gradient (external flow EDAC);
+    # same class name as the WCSPH one: lives in the second evaluator too
+    ('pysph.sph.wc.edac', 'MomentumEquation', dict(c0=10.0), True),
     ('pysph.sph.wc.viscosity', 'LaminarViscosity', dict(nu=0.01), False),
     ('pysph.sph.wc.viscosity', 'MonaghanSignalViscosityFluids',
      dict(alpha=0.5, h=0.1), True),
